@@ -349,16 +349,28 @@ pub(crate) fn parse_and_list(opts: ParseOptions, mode: &str, data: &[u8], obs: &
     match mode {
         "req" => obs.push(match fragment.to_request() {
             Ok(_) => "req ok".to_string(),
-            Err(RequestValidationError::UnexpectedFunction(_)) => "req err unexpected-function".to_string(),
+            Err(RequestValidationError::UnexpectedFunction(_)) => {
+                "req err unexpected-function".to_string()
+            }
             Err(RequestValidationError::NonFirFin) => "req err non-fir-fin".to_string(),
-            Err(RequestValidationError::UnexpectedUnsBit(_)) => "req err unexpected-uns".to_string(),
+            Err(RequestValidationError::UnexpectedUnsBit(_)) => {
+                "req err unexpected-uns".to_string()
+            }
         }),
         "resp" => obs.push(match fragment.to_response() {
             Ok(_) => "resp ok".to_string(),
-            Err(ResponseValidationError::UnexpectedFunction(_)) => "resp err unexpected-function".to_string(),
-            Err(ResponseValidationError::SolicitedResponseWithUnsBit) => "resp err sol-with-uns".to_string(),
-            Err(ResponseValidationError::UnsolicitedResponseWithoutUnsBit) => "resp err unsol-without-uns".to_string(),
-            Err(ResponseValidationError::UnsolicitedResponseWithoutFirAndFin) => "resp err unsol-without-firfin".to_string(),
+            Err(ResponseValidationError::UnexpectedFunction(_)) => {
+                "resp err unexpected-function".to_string()
+            }
+            Err(ResponseValidationError::SolicitedResponseWithUnsBit) => {
+                "resp err sol-with-uns".to_string()
+            }
+            Err(ResponseValidationError::UnsolicitedResponseWithoutUnsBit) => {
+                "resp err unsol-without-uns".to_string()
+            }
+            Err(ResponseValidationError::UnsolicitedResponseWithoutFirAndFin) => {
+                "resp err unsol-without-firfin".to_string()
+            }
         }),
         x => panic!("bad parse mode {}", x),
     }
@@ -384,11 +396,13 @@ fn level(x: &str) -> AppDecodeLevel {
 }
 
 fn variation(g: &str, v: &str) -> Variation {
-    Variation::lookup(g.parse().expect("group"), v.parse().expect("variation")).expect("unknown variation in encode op")
+    Variation::lookup(g.parse().expect("group"), v.parse().expect("variation"))
+        .expect("unknown variation in encode op")
 }
 
 fn function(x: &str) -> FunctionCode {
-    FunctionCode::from(x.parse().expect("function code")).expect("unknown function code in encode op")
+    FunctionCode::from(x.parse().expect("function code"))
+        .expect("unknown function code in encode op")
 }
 
 fn items<V: FixedSize, I: Copy>(args: &[String], index: impl Fn(u16) -> I) -> Vec<(V, I)> {
@@ -465,11 +479,18 @@ fn permissions(bits: u16) -> crate::app::file::Permissions {
         write: bits & (2 << shift) != 0,
         read: bits & (4 << shift) != 0,
     };
-    Permissions { world: set(0), group: set(3), owner: set(6) }
+    Permissions {
+        world: set(0),
+        group: set(3),
+        owner: set(6),
+    }
 }
 
 /// `free <v> <fields...>`: the real Group70Var<v> value written with HeaderWriter::write_free_format
-fn free_header(writer: &mut HeaderWriter, a: &[String]) -> Result<(), crate::app::format::WriteError> {
+fn free_header(
+    writer: &mut HeaderWriter,
+    a: &[String],
+) -> Result<(), crate::app::format::WriteError> {
     use crate::app::file::*;
     use crate::app::Timestamp;
     fn num<T: std::str::FromStr>(s: &str) -> T {
@@ -479,7 +500,11 @@ fn free_header(writer: &mut HeaderWriter, a: &[String]) -> Result<(), crate::app
     match a[0].as_str() {
         "2" => {
             let (user, pass) = (text(&a[2]), text(&a[3]));
-            writer.write_free_format(&Group70Var2 { auth_key: num(&a[1]), user_name: &user, password: &pass })
+            writer.write_free_format(&Group70Var2 {
+                auth_key: num(&a[1]),
+                user_name: &user,
+                password: &pass,
+            })
         }
         "3" => {
             let name = text(&a[8]);
@@ -507,7 +532,11 @@ fn free_header(writer: &mut HeaderWriter, a: &[String]) -> Result<(), crate::app
         }
         "5" => {
             let data = unhex(&a[3]);
-            writer.write_free_format(&Group70Var5 { file_handle: num(&a[1]), block_number: num(&a[2]), file_data: &data })
+            writer.write_free_format(&Group70Var5 {
+                file_handle: num(&a[1]),
+                block_number: num(&a[2]),
+                file_data: &data,
+            })
         }
         "6" => {
             let t = text(&a[4]);
@@ -536,7 +565,9 @@ fn free_header(writer: &mut HeaderWriter, a: &[String]) -> Result<(), crate::app
         }
         "8" => {
             let spec = text(&a[1]);
-            writer.write_free_format(&Group70Var8 { file_specification: &spec })
+            writer.write_free_format(&Group70Var8 {
+                file_specification: &spec,
+            })
         }
         x => panic!("bad free-format variation {}", x),
     }
@@ -554,21 +585,38 @@ fn encode(op: &[String], capacity: usize) -> Result<Vec<u8>, String> {
     let seq = Sequence::new(op[1].parse().expect("seq"));
     let mut buffer = vec![0u8; capacity];
     let mut cursor = WriteCursor::new(&mut buffer);
-    let mut writer = start_request(ControlField::request(seq), function(&op[2]), &mut cursor).map_err(|e| match e {
-        scursor::WriteError::NumericOverflow => "numeric-overflow".to_string(),
-        scursor::WriteError::WriteOverflow { .. } => "write-overflow".to_string(),
-        scursor::WriteError::BadSeek { .. } => "bad-seek".to_string(),
-    })?;
+    let mut writer = start_request(ControlField::request(seq), function(&op[2]), &mut cursor)
+        .map_err(|e| match e {
+            scursor::WriteError::NumericOverflow => "numeric-overflow".to_string(),
+            scursor::WriteError::WriteOverflow { .. } => "write-overflow".to_string(),
+            scursor::WriteError::BadSeek { .. } => "bad-seek".to_string(),
+        })?;
     for h in op[3..].split(|x| x == "/") {
         if h.is_empty() {
             continue;
         }
         let res = match h[0].as_str() {
             "all" => ReadHeader::all_objects(variation(&h[1], &h[2])).format(&mut writer),
-            "range8" => ReadHeader::one_byte_range(variation(&h[1], &h[2]), h[3].parse().unwrap(), h[4].parse().unwrap()).format(&mut writer),
-            "range16" => ReadHeader::two_byte_range(variation(&h[1], &h[2]), h[3].parse().unwrap(), h[4].parse().unwrap()).format(&mut writer),
-            "count8" => ReadHeader::one_byte_limited_count(variation(&h[1], &h[2]), h[3].parse().unwrap()).format(&mut writer),
-            "count16" => ReadHeader::two_byte_limited_count(variation(&h[1], &h[2]), h[3].parse().unwrap()).format(&mut writer),
+            "range8" => ReadHeader::one_byte_range(
+                variation(&h[1], &h[2]),
+                h[3].parse().unwrap(),
+                h[4].parse().unwrap(),
+            )
+            .format(&mut writer),
+            "range16" => ReadHeader::two_byte_range(
+                variation(&h[1], &h[2]),
+                h[3].parse().unwrap(),
+                h[4].parse().unwrap(),
+            )
+            .format(&mut writer),
+            "count8" => {
+                ReadHeader::one_byte_limited_count(variation(&h[1], &h[2]), h[3].parse().unwrap())
+                    .format(&mut writer)
+            }
+            "count16" => {
+                ReadHeader::two_byte_limited_count(variation(&h[1], &h[2]), h[3].parse().unwrap())
+                    .format(&mut writer)
+            }
             "classes" => {
                 let c: Vec<bool> = h[1].chars().map(|x| x == '1').collect();
                 Classes::new(c[3], EventClasses::new(c[0], c[1], c[2])).write(&mut writer)
@@ -592,26 +640,42 @@ fn encode(op: &[String], capacity: usize) -> Result<Vec<u8>, String> {
                 let value = match h[3].as_str() {
                     "int" => OwnedAttrValue::SignedInt(h[4].parse::<i64>().unwrap() as i32),
                     "uint" => OwnedAttrValue::UnsignedInt(h[4].parse().unwrap()),
-                    "vstr" => OwnedAttrValue::VisibleString(String::from_utf8(unhex(&h[4])).expect("utf8")),
+                    "vstr" => OwnedAttrValue::VisibleString(
+                        String::from_utf8(unhex(&h[4])).expect("utf8"),
+                    ),
                     "ostr" => OwnedAttrValue::OctetString(unhex(&h[4])),
                     "bstr" => OwnedAttrValue::BitString(unhex(&h[4])),
-                    "f32" => OwnedAttrValue::FloatingPoint(FloatType::F32(f32::from_bits(h[4].parse().unwrap()))),
-                    "f64" => OwnedAttrValue::FloatingPoint(FloatType::F64(f64::from_bits(h[4].parse().unwrap()))),
-                    "time" => OwnedAttrValue::Dnp3Time(crate::app::Timestamp::new(h[4].parse().unwrap())),
+                    "f32" => OwnedAttrValue::FloatingPoint(FloatType::F32(f32::from_bits(
+                        h[4].parse().unwrap(),
+                    ))),
+                    "f64" => OwnedAttrValue::FloatingPoint(FloatType::F64(f64::from_bits(
+                        h[4].parse().unwrap(),
+                    ))),
+                    "time" => {
+                        OwnedAttrValue::Dnp3Time(crate::app::Timestamp::new(h[4].parse().unwrap()))
+                    }
                     x => panic!("bad attribute type {}", x),
                 };
-                let attr = OwnedAttribute::new(AttrSet::new(h[1].parse().unwrap()), h[2].parse().unwrap(), value);
+                let attr = OwnedAttribute::new(
+                    AttrSet::new(h[1].parse().unwrap()),
+                    h[2].parse().unwrap(),
+                    value,
+                );
                 match writer.write_attribute(&attr) {
                     Ok(()) => Ok(()),
                     // every cursor operation of write_attribute is a write: the only cursor error is an overflow
                     Err(AttrWriteError::Cursor) => return Err("write-overflow".to_string()),
-                    Err(AttrWriteError::BadAttribute(_)) => return Err("attr-bad-length".to_string()),
+                    Err(AttrWriteError::BadAttribute(_)) => {
+                        return Err("attr-bad-length".to_string())
+                    }
                 }
             }
             "free" => match free_header(&mut writer, &h[1..]) {
                 Ok(()) => Ok(()),
                 // byte_length / checked_add / the 16-bit length of the object
-                Err(crate::app::format::WriteError::Overflow) => return Err("numeric-overflow".to_string()),
+                Err(crate::app::format::WriteError::Overflow) => {
+                    return Err("numeric-overflow".to_string())
+                }
                 Err(crate::app::format::WriteError::WriteError(e)) => Err(e),
             },
             x => panic!("bad encode header {}", x),
@@ -636,7 +700,11 @@ fn dbwrite(op: &[String]) -> Vec<u8> {
     use crate::outstation::database::*;
 
     let cfg = EventBufferConfig::new(1000, 1000, 1000, 1000, 1000, 1000, 1000, 1000);
-    let mut db = Database::new(None, ClassZeroConfig::new(true, true, true, true, true, true, true, true), cfg);
+    let mut db = Database::new(
+        None,
+        ClassZeroConfig::new(true, true, true, true, true, true, true, true),
+        cfg,
+    );
     let opts = UpdateOptions::new(true, EventMode::Force);
     for p in &op[2..] {
         let t: Vec<&str> = p.split(',').collect();
@@ -658,42 +726,137 @@ fn dbwrite(op: &[String]) -> Vec<u8> {
         };
         match t[0] {
             "bi" => {
-                let s = match sv { 1 => StaticBinaryInputVariation::Group1Var1, 2 => StaticBinaryInputVariation::Group1Var2, _ => panic!("svar") };
-                let e = match ev { 1 => EventBinaryInputVariation::Group2Var1, 2 => EventBinaryInputVariation::Group2Var2, 3 => EventBinaryInputVariation::Group2Var3, _ => panic!("evar") };
+                let s = match sv {
+                    1 => StaticBinaryInputVariation::Group1Var1,
+                    2 => StaticBinaryInputVariation::Group1Var2,
+                    _ => panic!("svar"),
+                };
+                let e = match ev {
+                    1 => EventBinaryInputVariation::Group2Var1,
+                    2 => EventBinaryInputVariation::Group2Var2,
+                    3 => EventBinaryInputVariation::Group2Var3,
+                    _ => panic!("evar"),
+                };
                 db.add(idx, class, BinaryInputConfig { s_var: s, e_var: e });
-                db.update2(idx, &BinaryInput { value: t[5] == "1", flags, time }, opts);
+                db.update2(
+                    idx,
+                    &BinaryInput {
+                        value: t[5] == "1",
+                        flags,
+                        time,
+                    },
+                    opts,
+                );
             }
             "dbi" => {
-                let s = match sv { 1 => StaticDoubleBitBinaryInputVariation::Group3Var1, 2 => StaticDoubleBitBinaryInputVariation::Group3Var2, _ => panic!("svar") };
-                let e = match ev { 1 => EventDoubleBitBinaryInputVariation::Group4Var1, 2 => EventDoubleBitBinaryInputVariation::Group4Var2, 3 => EventDoubleBitBinaryInputVariation::Group4Var3, _ => panic!("evar") };
-                let v = match t[5] { "0" => DoubleBit::Intermediate, "1" => DoubleBit::DeterminedOff, "2" => DoubleBit::DeterminedOn, _ => DoubleBit::Indeterminate };
-                db.add(idx, class, DoubleBitBinaryInputConfig { s_var: s, e_var: e });
-                db.update2(idx, &DoubleBitBinaryInput { value: v, flags, time }, opts);
+                let s = match sv {
+                    1 => StaticDoubleBitBinaryInputVariation::Group3Var1,
+                    2 => StaticDoubleBitBinaryInputVariation::Group3Var2,
+                    _ => panic!("svar"),
+                };
+                let e = match ev {
+                    1 => EventDoubleBitBinaryInputVariation::Group4Var1,
+                    2 => EventDoubleBitBinaryInputVariation::Group4Var2,
+                    3 => EventDoubleBitBinaryInputVariation::Group4Var3,
+                    _ => panic!("evar"),
+                };
+                let v = match t[5] {
+                    "0" => DoubleBit::Intermediate,
+                    "1" => DoubleBit::DeterminedOff,
+                    "2" => DoubleBit::DeterminedOn,
+                    _ => DoubleBit::Indeterminate,
+                };
+                db.add(
+                    idx,
+                    class,
+                    DoubleBitBinaryInputConfig { s_var: s, e_var: e },
+                );
+                db.update2(
+                    idx,
+                    &DoubleBitBinaryInput {
+                        value: v,
+                        flags,
+                        time,
+                    },
+                    opts,
+                );
             }
             "ctr" => {
-                let s = match sv { 1 => StaticCounterVariation::Group20Var1, 2 => StaticCounterVariation::Group20Var2, 5 => StaticCounterVariation::Group20Var5, 6 => StaticCounterVariation::Group20Var6, _ => panic!("svar") };
-                let e = match ev { 1 => EventCounterVariation::Group22Var1, 2 => EventCounterVariation::Group22Var2, 5 => EventCounterVariation::Group22Var5, 6 => EventCounterVariation::Group22Var6, _ => panic!("evar") };
+                let s = match sv {
+                    1 => StaticCounterVariation::Group20Var1,
+                    2 => StaticCounterVariation::Group20Var2,
+                    5 => StaticCounterVariation::Group20Var5,
+                    6 => StaticCounterVariation::Group20Var6,
+                    _ => panic!("svar"),
+                };
+                let e = match ev {
+                    1 => EventCounterVariation::Group22Var1,
+                    2 => EventCounterVariation::Group22Var2,
+                    5 => EventCounterVariation::Group22Var5,
+                    6 => EventCounterVariation::Group22Var6,
+                    _ => panic!("evar"),
+                };
                 db.add(idx, class, CounterConfig::new(s, e, 0));
-                db.update2(idx, &Counter { value: t[5].parse().unwrap(), flags, time }, opts);
+                db.update2(
+                    idx,
+                    &Counter {
+                        value: t[5].parse().unwrap(),
+                        flags,
+                        time,
+                    },
+                    opts,
+                );
             }
             "ai" => {
-                let s = match sv { 1 => StaticAnalogInputVariation::Group30Var1, 2 => StaticAnalogInputVariation::Group30Var2, 3 => StaticAnalogInputVariation::Group30Var3, 4 => StaticAnalogInputVariation::Group30Var4, 5 => StaticAnalogInputVariation::Group30Var5, 6 => StaticAnalogInputVariation::Group30Var6, _ => panic!("svar") };
-                let e = match ev { 1 => EventAnalogInputVariation::Group32Var1, 2 => EventAnalogInputVariation::Group32Var2, 3 => EventAnalogInputVariation::Group32Var3, 4 => EventAnalogInputVariation::Group32Var4, 5 => EventAnalogInputVariation::Group32Var5, 6 => EventAnalogInputVariation::Group32Var6, 7 => EventAnalogInputVariation::Group32Var7, 8 => EventAnalogInputVariation::Group32Var8, _ => panic!("evar") };
+                let s = match sv {
+                    1 => StaticAnalogInputVariation::Group30Var1,
+                    2 => StaticAnalogInputVariation::Group30Var2,
+                    3 => StaticAnalogInputVariation::Group30Var3,
+                    4 => StaticAnalogInputVariation::Group30Var4,
+                    5 => StaticAnalogInputVariation::Group30Var5,
+                    6 => StaticAnalogInputVariation::Group30Var6,
+                    _ => panic!("svar"),
+                };
+                let e = match ev {
+                    1 => EventAnalogInputVariation::Group32Var1,
+                    2 => EventAnalogInputVariation::Group32Var2,
+                    3 => EventAnalogInputVariation::Group32Var3,
+                    4 => EventAnalogInputVariation::Group32Var4,
+                    5 => EventAnalogInputVariation::Group32Var5,
+                    6 => EventAnalogInputVariation::Group32Var6,
+                    7 => EventAnalogInputVariation::Group32Var7,
+                    8 => EventAnalogInputVariation::Group32Var8,
+                    _ => panic!("evar"),
+                };
                 db.add(idx, class, AnalogInputConfig::new(s, e, 0.0));
-                db.update2(idx, &AnalogInput { value: f64::from_bits(u64::from_str_radix(t[5], 16).unwrap()), flags, time }, opts);
+                db.update2(
+                    idx,
+                    &AnalogInput {
+                        value: f64::from_bits(u64::from_str_radix(t[5], 16).unwrap()),
+                        flags,
+                        time,
+                    },
+                    opts,
+                );
             }
             "oct" => {
                 db.add(idx, class, OctetStringConfig);
-                db.update2(idx, &OctetString::new(&unhex(t[5])).expect("octet string"), opts);
+                db.update2(
+                    idx,
+                    &OctetString::new(&unhex(t[5])).expect("octet string"),
+                    opts,
+                );
             }
             x => panic!("bad point type {}", x),
         }
     }
     // READ class 1, 2, 3, 0 exactly as a master's integrity poll asks for it
     let request = [60u8, 2, 6, 60, 3, 6, 60, 4, 6, 60, 1, 6];
-    let headers = HeaderCollection::parse(ParseOptions::default(), FunctionCode::Read, &request).expect("class scan");
+    let headers = HeaderCollection::parse(ParseOptions::default(), FunctionCode::Read, &request)
+        .expect("class scan");
     for h in headers.iter() {
-        db.inner.select_by_header(ReadHeader::get(&h).expect("class header"));
+        db.inner
+            .select_by_header(ReadHeader::get(&h).expect("class header"));
     }
     let mut buf = vec![0u8; op[1].parse::<usize>().unwrap()];
     let mut cursor = WriteCursor::new(&mut buf);
